@@ -340,7 +340,7 @@ class Part(object):
                 measures[0][1] - measures[0][0]
                 < self.time_signature_map(0)[0] * divs_per_beat
             ):
-                measures[0][0] = (
+                measures[0][0] = np.round(
                     measures[0][1] - self.time_signature_map(0)[0] * divs_per_beat
                 )
 
@@ -399,7 +399,7 @@ class Part(object):
                 measures[0][1] - measures[0][0]
                 < self.time_signature_map(0)[0] * divs_per_beat
             ):
-                measures[0][0] = (
+                measures[0][0] = np.round(
                     measures[0][1] - self.time_signature_map(0)[0] * divs_per_beat
                 )
 
